@@ -70,7 +70,8 @@ class Ctx:
         self.samples = []
         self.tmp = os.path.join(BROOT, "work", "%s-%d" % (pid, os.getpid()))
         os.makedirs(self.tmp, exist_ok=True)
-        self.replays_dir = os.path.join(VERIF, "evidence", "replays")
+        self.replays_dir = (os.path.join(VERIF, "evidence", "replays") if os.path.realpath(REPO) == "/repo"
+                            else os.path.join(BROOT, "evidence-scratch", "replays"))
         os.makedirs(self.replays_dir, exist_ok=True)
         self.level = "model_checking"
         self.tlc_states = 0
@@ -282,8 +283,11 @@ class Ctx:
             "wall_s": round(time.time() - self.t0, 2), "violations": len(viol),
             "notes": self.notes,
         }
-        os.makedirs(os.path.join(VERIF, "evidence"), exist_ok=True)
-        with open(os.path.join(VERIF, "evidence", self.pid + ".json"), "w") as f:
+        # evidence under /verif/evidence only when the run is against /repo itself; scratch runs
+        # (VERIF_REPO pointing at a worktree, e.g. with a seeded change applied) write next to their build
+        evdir = os.path.join(VERIF, "evidence") if os.path.realpath(REPO) == "/repo" else os.path.join(BROOT, "evidence-scratch")
+        os.makedirs(evdir, exist_ok=True)
+        with open(os.path.join(evdir, self.pid + ".json"), "w") as f:
             json.dump(ev, f, indent=1, sort_keys=True)
             f.write("\n")
         shutil.rmtree(self.tmp, ignore_errors=True)
